@@ -70,7 +70,7 @@ def cases(tier, rng):
     for st in _stimsets(rng, 25 if quick else 400):
         for pol in (rng.sample(qc.POLICIES, 3) if quick else qc.POLICIES):
             c = {'pol': pol, 'gs': rng.randint(1, len(st) + 1), 'stims': st, 'fs': rng.choice(FS),
-                 't0': rng.choice([0, 0, 5, 1234, 3086.4, 7.77]), 'seed': rng.randint(0, 99)}
+                 't0': rng.choice([0, 0, 5, 1234, 3086.4, 7.77]), 'seed': rng.randint(0, 99), 'fill': rng.choice(['append', 'extend', 'mixed'])}
             B = _boundaries(c)
             pts = sorted({b + d for b in B for d in (-1, 0, 1) if b + d > 0})
             # requests that end exactly on / around every boundary
